@@ -570,11 +570,14 @@ func (c *checker) compare(kind, feature, eng string, docs []doc, states []tv, st
 	c.r.Outcome(fmt.Sprintf("%s|%s|hits=%s", kind, feature, bucket(len(ids))))
 }
 
+const howTo = "mapping: default mapping + geopoint field \"loc\"; index the document as {\"loc\": {\"lon\":…, \"lat\":…}} (several points: an array of such objects) into an in-memory index (bleve.NewUsing(\"\", mapping, scorch.Name, scorch.Name, config); engine scorch+s2: config {\"spatialPlugin\": \"s2\"}; upsidedown: upsidedown.Name, gtreap.Name); set the query's field to \"loc\" and search"
+
 func cloneRep(m map[string]any) map[string]any {
-	o := make(map[string]any, len(m)+4)
+	o := make(map[string]any, len(m)+6)
 	for k, v := range m {
 		o[k] = v
 	}
+	o["how"] = howTo
 	return o
 }
 
